@@ -34,5 +34,12 @@ PlaceEquiv ==
      /\ LPlaceDefined(x, y) =>
            S!Place(ref, ToInt(y)) = LPlaceEra(era, x, y) * S!M + ToInt(y)
      /\ LPlaceConstrained(era, x, y) <=> S!PlaceConstrained(ref, ToInt(y))
+\* x, y as a window, a boundary sample of third values as the timestamp
+WindowEquiv ==
+  \A z \in {x, y, LAdd(x, <<0, 1>>), LSub(y, <<0, 1>>), LSub(x, <<0, 1>>),
+            LAdd(x, LHalf), LAdd(y, LHalf), <<0, 0>>, <<B - 1, B - 1>>} :
+     /\ LWellFormed(x, y) <=> S!WellFormed(ToInt(x), ToInt(y))
+     /\ LInWindow(x, y, z) <=> S!InWindow(ToInt(x), ToInt(y), ToInt(z))
+     /\ LWindowDecision(x, y, z) = S!WindowDecision(ToInt(x), ToInt(y), ToInt(z))
 RoundTrip == ToLimbs(ToInt(x)) = x /\ ToInt(LHalf) = S!H
 =============================================================================
